@@ -1,4 +1,5 @@
 """C17 -- reported capacity is log2 of the spectral radius (partly decidable with this technique)."""
+import math
 import sys
 
 import z3
@@ -42,9 +43,12 @@ def jobs(tier):
     J.append(dict(side="regular", k=2, d=1, fixed="cycle+dead"))
     for d in (2, 3, 4):
         J.append(dict(side="early", k=1, d=d))
+    J.append(dict(side="probe4"))
     J.append(dict(side="witness"))
     J.append(dict(side="rng", repeats=2))
     J.append(dict(side="rng", repeats=3))
+    J.append(dict(side="rng-history", repeats=2))
+    J.append(dict(side="rng-history", repeats=3))
     if tier == "thorough":
         J.append(dict(side="bound", k=2, fixed="gc"))
         J.append(dict(side="bound", k=2, fixed="complete"))
@@ -78,6 +82,21 @@ def body(e, L, cfg):
             if core.is_sym(v) or float(v) != 0.0:
                 return {"status": "viol", "why": "arc-less graph gives %r" % (v,), "cex": {"kind": "capacity", "acc": [[-1] * 4 for _ in range(N)], "repeats": rep}}
         return {"status": "ok", "sample": {"zero": "arc-less graph of order %d returns 0.0" % cfg["k"]}}
+    if side == "probe4":
+        # concrete probe at order 4 (vertex indices beyond 127): the complete graph is 4-regular, a 2-regular sub-graph keeps columns A and T
+        full = [[succ(v, j, 4) for j in range(4)] for v in range(256)]
+        two = [[r[0], -1, -1, r[3]] for r in full]
+        for rows, d in ((full, 4), (two, 2)):
+            val = L.approximate_capacity(symnp.array(rows), repeats=1)
+            if core.is_sym(val) or abs(float(val) - math.log2(d)) > 1e-12:
+                return {"status": "viol", "why": "order-4 %d-regular graph: deterministic mode returns %r" % (d, val), "cex": {"kind": "capacity", "acc": rows, "repeats": 1}}
+        # randomised mode on the complete order-4 graph (primitive, every other eigenvalue is 0): within 1e-4 of 2
+        L.numpy.random.seed(0)
+        for reps in (2, 3):
+            val = L.approximate_capacity(symnp.array(full), repeats=reps)
+            if core.is_sym(val) or not abs(float(val) - 2.0) <= 1e-4:
+                return {"status": "viol", "why": "complete order-4 graph: repeats=%d returns %r" % (reps, val), "cex": {"kind": "capacity", "acc": full, "repeats": reps, "want": "accuracy", "seed": 0}}
+        return {"status": "ok", "sample": {"probe4": "complete order-4 graph = 2.0 (deterministic and randomised), {A,T} sub-graph = 1.0"}}
     if side == "rng":
         # every repeat of the randomised mode must draw its own start vector (call log of numpy.random), whatever the graph
         rows = [[-1, -1, 2, -1], [-1, 1, 2, -1], [0, 1, -1, -1], [-1, -1, -1, -1]]
@@ -90,6 +109,21 @@ def body(e, L, cfg):
             return {"status": "viol", "why": "%d random start vectors drawn for %d repeats" % (len(draws), cfg["repeats"]),
                     "cex": {"kind": "capacity", "acc": rows, "repeats": cfg["repeats"], "want": "accuracy", "seed": 0}}
         return {"status": "ok", "sample": {"rng": "one random start vector per repeat", "repeats": cfg["repeats"]}}
+    if side == "rng-history":
+        # an earlier randomised call on ANOTHER graph of the same order (a lone self-loop at T) must not influence this call:
+        # symmetric 3-vertex component, spectral radius from the real numpy, 1e-4 bound of the property
+        import numpy
+        rows = [[-1, -1, 2, -1], [-1, 1, 2, -1], [0, 1, -1, -1], [-1, -1, -1, -1]]
+        prior = [[-1, -1, -1, -1], [-1, -1, -1, -1], [-1, -1, -1, -1], [-1, -1, -1, 3]]
+        rho = max(abs(numpy.linalg.eigvalsh(numpy.array([[0, 0, 1], [0, 1, 1], [1, 1, 0]], dtype=float))))
+        rnd = L.numpy.random
+        rnd.seed(0)
+        L.approximate_capacity(symnp.array(prior), repeats=cfg["repeats"])
+        val = L.approximate_capacity(symnp.array(rows), repeats=cfg["repeats"])
+        if core.is_sym(val) or not abs(float(val) - math.log2(rho)) <= 1e-4:
+            return {"status": "viol", "why": "after a call on another graph, repeats=%d returns %r (log2 spectral radius %.6f)" % (cfg["repeats"], val, math.log2(rho)),
+                    "cex": {"kind": "capacity", "acc": rows, "prior": prior, "repeats": cfg["repeats"], "want": "accuracy", "seed": 0}}
+        return {"status": "ok", "sample": {"rng-history": "value unaffected by an earlier call on another graph", "repeats": cfg["repeats"]}}
     if side == "witness":
         # the recorded known finding must still reproduce on the real code (concrete replay), otherwise it is stale
         return {"status": "kf", "kf": "C17-KF1", "why": "deterministic single-start mode stops early", "cex": {"kind": "capacity", "acc": KF_WITNESS, "repeats": 1, "want": "accuracy"}}
@@ -157,7 +191,6 @@ def body(e, L, cfg):
         return {"status": "ok", "sample": {"bound": "one step from an arbitrary vector", "graph": g.model_rows(mm) if N <= 16 else cfg.get("fixed")}}
     if side == "regular" and cfg.get("fixed"):
         # window of symbolic dead-end arcs, enumerated exhaustively by the solver; each path runs on concrete binary64 numbers
-        import math
         d = cfg["d"]
         free = [a for row in g.arc for a in row if not (z3.is_true(a) or z3.is_false(a))]
         for a in free:
